@@ -10,7 +10,7 @@
    empty shard (0 <= p <= maxS) and 1 <= maxC.  Existing shards may be at any
    fill level (also over a limit). *)
 From Coq Require Import List NArith ZArith Bool Arith Sorted.
-From Semadb Require Import Model_C15 Proofs_C15.
+From Semadb Require Import Model_C15 Proofs_C15 Proofs_C15b.
 Import ListNotations.
 Open Scope Z_scope.
 
@@ -208,3 +208,12 @@ Print Assumptions c15_live_checker_sound.
 Example c15_ex_live :
   live_ranges_b 3 [[0; 1]; [2]]%N = true /\ live_ranges_b 3 [[0; 2]; [1]]%N = false /\ live_ranges_b 3 [[0; 1]; [1; 2]]%N = false.
 Proof. vm_compute. repeat split; reflexivity. Qed.
+
+(* --- and the other way round: what the model's assignment stores passes that checker, for every result of
+   distribute (the positions shard i holds are model_stored out i); the checker is exact on model-conforming runs *)
+Theorem c15_live_checker_accepts_model : forall shards sizes maxS maxC out created,
+  Forall (fun p => 0 <= p <= maxS) sizes -> 1 <= maxC ->
+  distribute shards sizes maxS maxC = Some (out, created) ->
+  live_ranges_b (length sizes) (map (model_stored out) (seq 0 (length shards + created))) = true.
+Proof. exact live_checker_accepts_distribute. Qed.
+Print Assumptions c15_live_checker_accepts_model.
